@@ -31,6 +31,12 @@
 (*                    Cap bytes is therefore absent).                      *)
 (* Both satisfy "exact or absent".                                         *)
 (*                                                                         *)
+(* TlsWrite.  The TLS stack may write (its ServerHello) before it has read  *)
+(* all the client sent - a large ClientHello complete within its first     *)
+(* read, more records behind it.  A write changes no variable of this      *)
+(* specification: it is a stuttering step, and the harness performs one    *)
+(* after the stack's first read in every replayed segmentation.            *)
+(*                                                                         *)
 (* Time.  Send is an environment action with no deadline of its own: the   *)
 (* segments of one flight arrive whenever the network delivers them (a     *)
 (* retransmission, a radio link waking up), and the only clock that may    *)
